@@ -107,6 +107,7 @@ def handle (line : String) : Except String String := do
   let dice := fun (s t : Nat) => dm.getD (s, t) 0
   -- input well-formedness the theorems assume (diff() guarantees it by copying shared nodes)
   if !(nodupNat S.bfs && nodupNat T.bfs) then return "bad-input bfs"
+  if !(S.linkedB && T.linkedB) then return "bad-input links"
   if !(S.wf && T.wf) then return "bad-input wf"
   if !(nodupNat (pre.map (·.1)) && nodupNat (pre.map (·.2))) then return "bad-input pre"
   if !(pre.all fun p => S.index.contains p.1 && T.index.contains p.2) then return "bad-input pre-index"
